@@ -1,12 +1,57 @@
-(* C08 — pins (theorems in Proofs/C08Main.v to follow). *)
-From Coq Require Import String Ascii ZArith QArith List Bool.
-From RV Require Import Base.Val Gen.Parser Model.Reader1.
+(* C08 — structure reading preserves atoms, residue identity and the requested model.  Property theorems only. *)
+From Coq Require Import String Ascii ZArith QArith List Bool Arith.
+From RV Require Import Base.Val Base.PyStr Gen.Parser Model.Geom Model.Reader1 Proofs.C08Main.
 Import ListNotations.
+Local Close Scope Q_scope.
 
 Lemma C08_pin_per_model : dedup_key_has_model = true /\ clash_filter_per_model = true /\ model_selection_as_modelled = true.
 Proof. repeat split; reflexivity. Qed.
 Print Assumptions C08_pin_per_model.
 
-Lemma C08_pin_constants : clash_distance = 1 # 2 /\ icode_null_markers = ["?"; "."]%string /\ occupancy_null_markers = ["."; "?"]%string.
+Lemma C08_pin_constants : clash_distance = (1 # 2)%Q /\ icode_null_markers = ["?"; "."]%string /\ occupancy_null_markers = ["."; "?"]%string.
 Proof. repeat split; reflexivity. Qed.
 Print Assumptions C08_pin_constants.
+
+(* the requested model if present (else the first of the file): exactly its atoms, in file order, never another model's *)
+Theorem C08_model_exact : forall atoms m, existsb (fun a => (a1_model a =? m)%Z) atoms = true ->
+    select_model atoms (Some m) = filter (fun a => (a1_model a =? m)%Z) atoms.
+Proof. exact select_model_requested. Qed.
+Print Assumptions C08_model_exact.
+
+Theorem C08_never_another_model : forall atoms m a, In a (select_model atoms (Some m)) ->
+    existsb (fun a => (a1_model a =? m)%Z) atoms = true -> a1_model a = m.
+Proof. exact select_model_never_another. Qed.
+Print Assumptions C08_never_another_model.
+
+Theorem C08_default_first : forall atoms model,
+    select_model atoms model =
+      match chosen_model atoms model with Some m => filter (fun a => (a1_model a =? m)%Z) atoms | None => [] end.
+Proof. exact select_model_exact. Qed.
+Print Assumptions C08_default_first.
+
+(* duplicates / alternate locations: every (residue identity, model, atom name) is represented exactly once, by an atom of the file;
+   atoms of different models are never merged *)
+Theorem C08_once : forall atoms l, dedup atoms = Ok l ->
+    NoDup (map key_of l) /\ forall k, In k (map key_of l) <-> In k (map key_of atoms).
+Proof. exact dedup_once. Qed.
+Print Assumptions C08_once.
+Theorem C08_nothing_invented : forall atoms l x, dedup atoms = Ok l -> In x l -> In x atoms.
+Proof. exact dedup_nothing_invented. Qed.
+Print Assumptions C08_nothing_invented.
+Theorem C08_dedup_per_model : forall a b, a1_model a <> a1_model b -> same_key a b = false.
+Proof. exact dedup_per_model. Qed.
+Print Assumptions C08_dedup_per_model.
+
+(* of two atoms of one model closer than 0.5 A (occupancies known) one is discarded: the one with the lower occupancy *)
+Theorem C08_clash_one_survivor : forall l i j a b oa ob,
+    nth_error l i = Some a -> nth_error l j = Some b -> i < j -> close a b = true ->
+    (negb clash_filter_per_model || (a1_model a =? a1_model b)%Z) = true ->
+    a1_occ a = Some oa -> a1_occ b = Some ob ->
+    In (if (ob <? oa)%Z then j else i) (discarded l).
+Proof. exact clash_pair_discarded. Qed.
+Print Assumptions C08_clash_one_survivor.
+
+(* grouping into residues keeps file order and loses nothing *)
+Theorem C08_grouping_file_order : forall atoms, concat (group atoms) = atoms.
+Proof. exact group_concat. Qed.
+Print Assumptions C08_grouping_file_order.
